@@ -170,6 +170,22 @@ def guess (bs : List Byte) : Option Guess :=
   | some g => some g
   | none => if c = [0, 2, 0, 0] ∧ 2 * ofBE a + 12 = bs.length then some (.fmt 0x100000) else none
 
+/-- the 12 bytes `guess_file_type` looks at since the repair of KF-PVF-TINY-FILE: what the file has, zeros behind it
+    (`probe = filelength` when 0 < filelength < 12; the buffer is cleared first) -/
+def probe12 (bs : List Byte) : List Byte := (bs ++ List.replicate 12 0).take 12
+
+/-- `guess_file_type` on a non-empty file of ANY length, as far as the HTK test: the marker tests run on the zero-padded
+    probe, the HTK test compares with the true file length; `none`: a later test decides.  On a file of at least 12
+    bytes this is `guess` (`guessProbe_eq_guess`, SfProofs/PvfImage.lean). -/
+def guessProbe (bs : List Byte) : Option Guess :=
+  let p := probe12 bs
+  let a := p.take 4
+  let b := (p.drop 4).take 4
+  let c := (p.drop 8).take 4
+  match preHtk a b c with
+  | some g => some g
+  | none => if c = [0, 2, 0, 0] ∧ 2 * ofBE a + 12 = bs.length then some (.fmt 0x100000) else none
+
 /-- the case labels of the read-mode switch in pcm_init: bytewidth * 0x10000 + endian + chars -/
 def pcmKeys : List Nat :=
   [0x10000 + 0x20000000 + 200, 0x10000 + 0x10000000 + 200, 0x10000 + 0x20000000 + 201, 0x10000 + 0x10000000 + 201,
